@@ -78,7 +78,7 @@ func Base(d *Dialect) *schema.Schema {
 	t := schema.NewTable("t")
 	id, a, b, c, dd := col("id", d.Int(), false), col("a", d.Int(), true), col("b", d.Str(), true), col("c", d.Dec(), true), col("d", d.Int(), true)
 	b.SetDefault(&schema.Literal{V: "'a'"})
-	t.AddColumns(id, a, b, c, dd)
+	t.AddColumns(id, a, b, c, dd, col("z0", d.Int(), true))
 	t.SetPrimaryKey(schema.NewPrimaryKey(id))
 	t.AddIndexes(
 		schema.NewIndex("idx_a").AddParts(part(1, a)),
@@ -98,8 +98,9 @@ func Base(d *Dialect) *schema.Schema {
 	switch d {
 	case MySQL:
 		t.AddIndexes(schema.NewIndex("c").AddParts(part(1, c))) // name MySQL generates for an unnamed key on (c)
+		// every level states a charset different from its parent, so nothing is inherited silently.
 		s.SetCharset("utf8mb4").SetCollation("utf8mb4_0900_ai_ci")
-		t.SetCharset("utf8mb4").SetCollation("utf8mb4_0900_ai_ci")
+		t.SetCharset("latin1").SetCollation("latin1_swedish_ci")
 		b.SetCharset("utf8mb4").SetCollation("utf8mb4_0900_ai_ci")
 		id.AddAttrs(&mysql.AutoIncrement{})
 		t.AddAttrs(&mysql.AutoIncrement{V: 100}, &mysql.Engine{V: "InnoDB"})
@@ -226,7 +227,7 @@ func Edits(d *Dialect) []Edit {
 		}, []string{"AddTable(x)"}},
 		{"drop_table", []string{"table:u"}, func(s *schema.Schema) { dropTable(s, "u") }, []string{"DropTable(u)"}},
 		{"add_column", []string{"col:z"}, func(s *schema.Schema) { T(s, "t").AddColumns(col("z", d.Int(), true)) }, []string{mt("AddColumn(z)")}},
-		{"drop_column", []string{"col:c", "idx:c", "idx:t_c_key"}, func(s *schema.Schema) { dropCol(T(s, "t"), "c") }, []string{mt("DropColumn(c)")}},
+		{"drop_column", []string{"col:z0"}, func(s *schema.Schema) { dropCol(T(s, "t"), "z0") }, []string{mt("DropColumn(z0)")}},
 		{"col_null_to_notnull", []string{"col:d"}, func(s *schema.Schema) { C(T(s, "t"), "d").Type.Null = false }, []string{mt("ModifyColumn(d)[null]")}},
 		{"col_type", []string{"col:d"}, func(s *schema.Schema) { C(T(s, "t"), "d").Type.Type = d.BigInt() }, []string{mt("ModifyColumn(d)[type]")}},
 		{"col_default_changed", []string{"col:b"}, func(s *schema.Schema) { C(T(s, "t"), "b").Default = &schema.Literal{V: "'b'"} }, []string{mt("ModifyColumn(b)[default]")}},
@@ -369,12 +370,12 @@ func Edits(d *Dialect) []Edit {
 			Edit{"col_charset_collate", []string{"col:b"}, func(s *schema.Schema) {
 				c := C(T(s, "t"), "b")
 				c.Attrs = dropAttr[*schema.Collation](dropAttr[*schema.Charset](c.Attrs))
-				c.SetCharset("latin1").SetCollation("latin1_swedish_ci")
+				c.SetCharset("ascii").SetCollation("ascii_general_ci")
 			}, []string{mt("ModifyColumn(b)[charset,collate]")}},
 			Edit{"table_charset_collate", []string{"tattr:charset"}, func(s *schema.Schema) {
 				t := T(s, "t")
 				t.Attrs = dropAttr[*schema.Collation](dropAttr[*schema.Charset](t.Attrs))
-				t.SetCharset("latin1").SetCollation("latin1_swedish_ci")
+				t.SetCharset("ascii").SetCollation("ascii_general_ci")
 			}, []string{mt("ModifyAttr(Charset)"), mt("ModifyAttr(Collation)")}},
 			Edit{"engine", []string{"tattr:engine"}, func(s *schema.Schema) {
 				t := T(s, "t")
@@ -413,7 +414,7 @@ func Edits(d *Dialect) []Edit {
 			}, []string{mt("DropIndex(c)"), mt("AddIndex()")}},
 			Edit{"schema_charset_collate", []string{"schema"}, func(s *schema.Schema) {
 				s.Attrs = dropAttr[*schema.Collation](dropAttr[*schema.Charset](s.Attrs))
-				s.SetCharset("latin1").SetCollation("latin1_swedish_ci")
+				s.SetCharset("cp1251").SetCollation("cp1251_general_ci")
 			}, []string{"ModifySchema(s1)/ModifyAttr(Charset)", "ModifySchema(s1)/ModifyAttr(Collation)"}},
 		)
 	case Postgres:
@@ -488,7 +489,7 @@ func Equivalences(d *Dialect) []Edit {
 		es = append(es,
 			Edit{"fk_noaction_spelled_restrict", nil, func(s *schema.Schema) { F(T(s, "t"), "fk_d2").OnDelete = schema.Restrict }, nil},
 			Edit{"fk_omitted_action_spelled_noaction", nil, func(s *schema.Schema) { F(T(s, "t"), "fk_d2").OnUpdate = schema.NoAction }, nil},
-			Edit{"index_type_btree_explicit", nil, func(s *schema.Schema) { I(T(s, "t"), "idx_a").AddAttrs(&mysql.IndexType{T: "btree"}) }, nil},
+			Edit{"index_type_btree_explicit", nil, func(s *schema.Schema) { I(T(s, "t"), "idx_a").AddAttrs(&mysql.IndexType{T: "BTREE"}) }, nil},
 			Edit{"generated_name_index_left_unnamed", nil, func(s *schema.Schema) { I(T(s, "t"), "c").Name = "" }, nil},
 			Edit{"engine_case", nil, func(s *schema.Schema) {
 				t := T(s, "t")
@@ -509,7 +510,7 @@ func Equivalences(d *Dialect) []Edit {
 				c.Attrs = dropAttr[*postgres.Identity](c.Attrs)
 				c.AddAttrs(&postgres.Identity{Generation: "ALWAYS"})
 			}, nil},
-			Edit{"index_type_btree_explicit", nil, func(s *schema.Schema) { I(T(s, "t"), "idx_a").AddAttrs(&postgres.IndexType{T: "btree"}) }, nil},
+			Edit{"index_type_btree_explicit", nil, func(s *schema.Schema) { I(T(s, "t"), "idx_a").AddAttrs(&postgres.IndexType{T: "BTREE"}) }, nil},
 			Edit{"generated_name_index_left_unnamed", nil, func(s *schema.Schema) { I(T(s, "t"), "t_c_key").Name = "" }, nil},
 			Edit{"check_expr_wrapped", nil, func(s *schema.Schema) {
 				c, _ := checkOf(T(s, "t"), "ck_a")
